@@ -22,9 +22,13 @@ struct Res
     bool erange;
 };
 
+// the caller's end variable holds this before EVERY call; ISO 7.22.1.4p5/p7: a pointer is always stored in *endptr
+// when endptr is not null (nptr itself when no conversion is performed - empty or all-blank text included)
+static char *const POISON = (char *)(uintptr_t)0x5A5A5A5A5A5AULL;
+static const long NOT_WRITTEN = -7777777;
 static Res ref_call(int f, const char *p, int base, bool with_end)
 {
-    char *e = (char *)p;
+    char *e = POISON;
     char **ep = with_end ? &e : nullptr;
     unsigned long long v = 0;
     errno = 0;
@@ -37,11 +41,13 @@ static Res ref_call(int f, const char *p, int base, bool with_end)
     case STRTOIMAX: v = (unsigned long long)strtoimax(p, ep, base); break;
     case STRTOUMAX: v = strtoumax(p, ep, base); break;
     }
-    return Res{v, (long)(e - p), errno == ERANGE};
+    if (with_end && e == POISON)
+        mc::harness_error("the reference did not store *endptr");
+    return Res{v, with_end ? (long)(e - p) : 0, errno == ERANGE};
 }
 static bool impl_call(int f, const char *p, int base, bool with_end, Res &out)
 {
-    char *e = (char *)p;
+    char *e = POISON;
     char **ep = with_end ? &e : nullptr;
     unsigned long long v = 0;
     errno = 0;
@@ -56,7 +62,7 @@ static bool impl_call(int f, const char *p, int base, bool with_end, Res &out)
         case STRTOUMAX: v = igc_strtoumax(p, ep, base); break;
         }
     });
-    out = Res{v, (long)(e - p), errno == ERANGE};
+    out = Res{v, !with_end ? 0 : e == POISON ? NOT_WRITTEN : (long)(e - p), errno == ERANGE};
     return ok;
 }
 
@@ -119,7 +125,9 @@ static void check_text(const uint8_t *t, size_t len, int base, bool with_end = t
         }
         if (g.v != r.v)
             sigv(f, "value", cls, t, len, base, "returned %lld (0x%llx), ISO/glibc: %lld (0x%llx)", (long long)g.v, g.v, (long long)r.v, r.v);
-        if (with_end && g.end != r.end)
+        if (with_end && g.end == NOT_WRITTEN)
+            sigv(f, "endptr_not_written", cls, t, len, base, "returned without storing *endptr (the caller's variable still holds its previous value); ISO/glibc: nptr+%ld", r.end);
+        else if (with_end && g.end != r.end)
             sigv(f, "endptr", cls, t, len, base, "*endptr = nptr+%ld, ISO/glibc: nptr+%ld", g.end, r.end);
         // errno is not among the statement's observables (value, end pointer, clamping): information only
         if (r.erange && !g.erange)
